@@ -34,6 +34,14 @@ LITERAL_ITEMS = [
 ]
 
 
+# (entry point, plain argument list, (argument list, stacked attribute) of the request that repeats a trait with dump, item, trait)
+DUPLICATE_WITH_DUMP = [
+    ('A', 'Clone, Default', ('Clone, Default', '#[derive_ex(Clone(dump))] '), 'struct X(u8);', 'Clone'),
+    ('A', 'Debug, PartialEq', ('Debug(dump), PartialEq, Debug', ''), 'enum E { A(u8), B }', 'Debug'),
+    ('A', 'Hash', ('Hash', '#[derive_ex(Hash, dump)] '), 'struct X { a: u8 }', 'Hash'),
+]
+
+
 def literal_inputs():
     out = []
     gid = 2 * 10 ** 6
@@ -201,6 +209,21 @@ class C19(Prop):
                     nontrivial += 1
                     if len(samples) < 2:
                         samples.append(dict(input=r.input_text()[:300], payload=[p[1][:200] for p in got if p[0] == 'DUMP'][:1]))
+        # the same trait listed twice, one of the mentions dumped: the dumped mention shows its code, the other one stays
+        dup = R.run_raw([x for k, (m, plain, dumped, item, tr) in enumerate(DUPLICATE_WITH_DUMP)
+                         for x in ((m, plain, item, dict(k=k)), (m, dumped[0], dumped[1] + item, dict(k=k)))])
+        for (m, plain, dumped, item, tr), a, b in zip(DUPLICATE_WITH_DUMP, dup[0::2], dup[1::2]):
+            base = impl_parts(a.actual)
+            got = impl_parts(b.actual)
+            one = [p for p in base if p[0] == 'IMPL' and (' : : %s for ' % tr) in p[1] + ' ']
+            want = ' '.join(tokens_of([p]) for p in base) + ' ' + ' '.join(tokens_of([p]) for p in one)
+            have = ' '.join(p[1] if p[0] == 'DUMP' else tokens_of([p]) if p[0] in ('IMPL', 'CONST') else 'ERR:' + p[1] for p in got)
+            if not one or want != have or sum(1 for p in got if p[0] == 'DUMP') != 1:
+                failures.append(dict(**{'class': 'dump-of-a-repeated-trait', 'mode': 'duplicate'}, input=b.input_text(),
+                                     expected=want[:1200], observed=have[:1200]))
+            else:
+                validated += 1
+        lit = list(lit) + dup
         return dict(evaluations=len(results) + len(lit), validated=validated, failures=failures, samples=samples,
                     groups=len(groups), dumps_with_payload=nontrivial, literal_requests=len(lit))
 
